@@ -29,6 +29,11 @@ ASSUMPTIONS = ["workloads are proper MDPs with <= 6 non-absorbing states", "soft
 LEARNERS = ('QLearning', 'SARSA', 'ExpectedSARSA', 'DoubleQLearning')
 
 
+def _size(rng):
+    # mostly small models (<= 6 non-absorbing states); a few per cent are larger
+    return dict(min_states=10, max_states=20, max_actions=4) if rng.random() < 0.04 else {}
+
+
 def preload():
     import msdm.algorithms.tdlearning  # noqa
 
@@ -36,10 +41,10 @@ def preload():
 def gen_case(rng, tier, idx):
     temp = rng.choice((0.0, 0.0, 0.0, 1.0, 5.0))
     if temp > 0:
-        spec = gen_mdp_spec(rng, proper=True, discounts=(0.5, 0.8, 0.9), rewards=(-2.0, -1.0, -1.0, 0.0, 1.0, 0.5, 2.0))
+        spec = gen_mdp_spec(rng, **_size(rng), proper=True, discounts=(0.5, 0.8, 0.9), rewards=(-2.0, -1.0, -1.0, 0.0, 1.0, 0.5, 2.0))
     else:
         edge = rng.random()
-        spec = gen_mdp_spec(rng, proper=True, discounts=(0.999,) if edge < 0.02 else (0.5, 0.8, 0.9, 0.95, 1.0),
+        spec = gen_mdp_spec(rng, **_size(rng), proper=True, discounts=(0.999,) if edge < 0.02 else (0.5, 0.8, 0.9, 0.95, 1.0),
                             rewards=(0.0,) if 0.02 <= edge < 0.04 else None)
     q0 = rng.choice((dict(kind='const', v=0.0), dict(kind='const', v=-1.0), dict(kind='const', v=2.5),
                      dict(kind='fn', base=rng.choice((0.0, -1.0, 1.0)), spread=0.25)))
